@@ -33,8 +33,9 @@ def run(ctx):
         "harness/src/modes/body.rs: keep-nothing and counting implementations of the public IParserContext trait",
     ]
     ctx.assumptions += [
-        "'work grows linearly': proved = the memoised result is position-determined (T1+T3); measured = evaluations per (cache, length) ≤ 1 on every case, "
-        "on the implementation (counting wrapper) and on the model (identical counts); not proved = an unbounded at-most-once theorem (T4) and the cost of one evaluation",
+        "'work grows linearly': proved = the memoised result is position-determined (T1+T3) and, for EVERY body, the log of evaluations (cache, remaining length) of the "
+        "memoising run has no duplicate and every logged evaluation ended in the cache (T4, `body_evaluated_once`); measured as well = evaluations per (cache, length) ≤ 1 on every case, "
+        "on the implementation (counting wrapper) and on the model (identical counts); not proved = the cost of ONE evaluation excluding its memoised sub-calls",
     ]
     if ctx.replay:
         return replay(ctx)
@@ -136,6 +137,30 @@ def run(ctx):
     for i in range(1500 if q else 20000):
         g = prog.Gen(rng)
         files.append((g.method(2), g.method(2)))
+    # a method body followed by FILE-LEVEL variable declarations (with and without `absolute`): whatever the tables of the body
+    # still hold must not be seen by the declarations after it — the lengths are varied so that the number of tokens left at
+    # a declaration's clauses meets the lengths at which the body's calls were memoised
+    T, I = prog.T, (lambda s: prog.T("Identifier", s))
+    calls = [[I("f"), T("OBracket"), T("NumericLiteral", "1"), T("CBracket")],
+             [I("g"), T("OBracket"), T("NumericLiteral", "1"), T("Comma", ","), I("x"), T("CBracket")],
+             [I("h"), T("OBracket"), T("CBracket")],
+             [I("a"), T("Dot", "."), I("f"), T("OBracket"), I("x"), T("CBracket")]]
+    gdecls = [[I("gC"), T("Colon"), I("int4")],
+              [I("gD"), T("Colon"), I("int4"), T("Absolute", "absolute"), I("gE")],
+              [T("Memory", "memory"), I("gM"), T("Colon"), I("int4")]]
+    for i in range(400 if q else 6000):
+        d1 = [T("Proc", "proc"), I("P%d" % (i % 7))]
+        for _ in range(1 + rng.below(4)):
+            d1 += rng.choice(calls)
+        d1 += [T("EndProc", "endproc")]
+        d2 = []
+        for _ in range(rng.below(3)):
+            d2 += rng.choice(gdecls)
+        d2 += [I("gA"), T("Colon"), I("int4"), T("Absolute", "absolute"), I("gB")]
+        for _ in range(rng.below(4)):
+            d2 += rng.choice(gdecls)
+        files.append((d1, d2))
+        ctx.count("method-then-file-level-declarations")
     whole, alone1, alone2 = [], [], []
     for d1, d2 in files:
         if d1 and isinstance(d1[0], tuple):
